@@ -16,6 +16,7 @@ def add(pid, cat, technique, text, note, ref):
 
 
 NOT_YET = {}
+EXTRA = {}
 
 exec(open(os.path.join(V, "tools", "manifest_table.py")).read())
 
@@ -26,6 +27,9 @@ for pid in ids:
     if pid not in CHECKS:
         continue
     cat, tech, text, note, ref = CHECKS[pid]
+    if EXTRA.get(pid):
+        text = text + " Dimensions added since the first version (DESIGN.md 7.6/7.7; each a complete " \
+                      "sub-product): " + EXTRA[pid]
     checks.append({
         "property_id": pid,
         "quick_cmd": "./check %s --tier quick" % pid,
